@@ -9,15 +9,17 @@ VARIABLE tid
 Rec == Traces[tid]
 SeqSet(s) == {s[i] : i \in 1..Len(s)}
 
-Exp   == Expected(SeqSet(Rec.base), Rec.d)
+\* rec.stacked: rec.d1 was written first, rec.d on top of it (rec.base is the directive-free project either way)
+Exp   == IF Rec.stacked THEN Expected2(SeqSet(Rec.base), Rec.d1, Rec.d) ELSE Expected(SeqSet(Rec.base), Rec.d)
 After == SeqSet(Rec.after)
-Named(v) == Names(Rec.d, [linter |-> v.linter, sub |-> v.sub])
+Named(v) == \/ Names(Rec.d, [linter |-> v.linter, sub |-> v.sub])
+            \/ Rec.stacked /\ Names(Rec.d1, [linter |-> v.linter, sub |-> v.sub])
 LayerA == IF After = Exp THEN "ok"
           ELSE IF \E v \in After \ Exp : Named(v) THEN "NotSilenced"
           ELSE IF \E v \in Exp \ After : Named(v) THEN "OverSilenced"
           ELSE "OtherChanged"
 
-TraceInit == tid = 1 /\ form = "sameLine" /\ spelling = "fullId" /\ placement = "on" /\ done = FALSE
+TraceInit == tid = 1 /\ form = "sameLine" /\ spelling = "fullId" /\ placement = "on" /\ stack = "none" /\ done = FALSE
 TraceNext == /\ tid <= Len(Traces)
              /\ PrintT(<<"VERDICT", tid, LayerA, "ok", 0>>)
              /\ tid' = tid + 1 /\ UNCHANGED vars
